@@ -154,3 +154,71 @@ Section Neutral.
     - exact Hs.
   Qed.
 End Neutral.
+
+(* ---------- C03: a statement written on one line and ended by ';' is parsed alone and leaves the machine in its initial state ------- *)
+Section OneLine.
+  Variable parse_stmt : string -> res (option pyval).
+
+  (* what the line machine hands to the statement parser for such a line *)
+  Definition code_of (l' : string) : string :=
+    replace (replace (strip l') (String (ascii_of_nat 10) "") "") (String (ascii_of_nat 9) "") "".
+  Definition entities_of (r : option pyval) : list pyval :=
+    match r with Some v => if match v with PDict [] => false | _ => true end then [v] else [] | None => [] end.
+
+  (* the side conditions are about the line alone (its comment markers, its first word, its last character) *)
+  Record one_line_statement (l l' : string) : Prop := {
+    ol_sub : re_sub RegexAst.re_equal_without_space " = " l = Ok l';
+    ol_not_comment : (startswith (strip l') MYSQL_COM || startswith (strip l') IN_COM) = false;
+    ol_no_inline : contains l' IN_COM = false;
+    ol_no_close : contains l' CL_COM = false;
+    ol_no_open : contains l' OP_COM = false;
+    ol_not_skipped : re_match_b RegexAst.re_skip_regex (upper (code_of l')) = Ok false;
+    ol_not_set : re_match_b RegexAst.re_set_statement (upper (code_of l')) = Ok false;
+    ol_ends : endswith (code_of l') ";" = true;
+    ol_nonempty : String.eqb (code_of l') "" = false;
+    ol_body : String.eqb (drop_last (code_of l')) "" = false
+  }.
+
+  Lemma startswith_false_of_contains s p : contains s p = false -> p <> ""%string -> startswith s p = false.
+  Proof.
+    intros H Hp. unfold startswith. destruct (String.prefix p s) eqn:P; [|reflexivity]. exfalso.
+    unfold contains in H. destruct s; simpl in *.
+    - destruct p; [congruence|discriminate].
+    - rewrite P in H. discriminate.
+  Qed.
+
+  Theorem one_line_statement_alone : forall l l' not_last, one_line_statement l l' ->
+    process_line parse_stmt lm0 l not_last =
+    (do r <- parse_stmt (drop_last (code_of l')); Ok (lm0, (entities_of r, []))).
+  Proof.
+    intros l l' not_last [Hsub Hnc Hin Hcl Hop Hsk Hset Hend Hne Hb].
+    unfold process_line.
+    assert (Hpre : pre_process_line lm0 l = Ok (l', false, [], [])).
+    { unfold pre_process_line. rewrite Hsub. cbn [bind multi_line_comment lm0]. rewrite Hnc. cbn [negb bind].
+      rewrite Hin, Hcl, Hop. cbn [negb andb bind block_comments lm0].
+      rewrite Hcl. cbn [andb bind].
+      rewrite (startswith_false_of_contains l' OP_COM Hop) by discriminate.
+      rewrite (startswith_false_of_contains l' CL_COM Hcl) by discriminate. reflexivity. }
+    rewrite Hpre. cbn [bind]. fold (code_of l'). rewrite Hsk, Hset. cbn [bind set_line set_was_in_line statement lm0].
+    rewrite Hend, Hne. cbn [negb andb orb nonempty]. rewrite Hne. cbn [negb andb orb].
+    rewrite Hb. cbn [negb andb bind].
+    destruct (parse_stmt (drop_last (code_of l'))) as [r| | |]; cbn [bind]; try reflexivity.
+  Qed.
+
+  (* a script of such lines: every statement is parsed alone, the results come in order, whatever the neighbours are *)
+  Fixpoint results_in_order (ls : list (string * string)) : res (list pyval) :=
+    match ls with
+    | [] => Ok []
+    | (_, l') :: r => do x <- parse_stmt (drop_last (code_of l')); do t <- results_in_order r; Ok (entities_of x ++ t)
+    end.
+  Theorem one_line_statements_independent : forall (ls : list (string * string)) more,
+    Forall (fun p => one_line_statement (fst p) (snd p)) ls ->
+    run_lines parse_stmt lm0 (map fst ls) more = (do t <- results_in_order ls; Ok (lm0, (t, []))).
+  Proof.
+    induction ls as [|[l l'] r IH]; intros more H; cbn [map run_lines results_in_order]; [reflexivity|].
+    inversion H as [|? ? H1 Hr]; subst. cbn [fst snd] in H1.
+    rewrite (one_line_statement_alone l l' _ H1).
+    destruct (parse_stmt (drop_last (code_of l'))) as [x| | |]; cbn [bind]; try reflexivity.
+    rewrite (IH more Hr). destruct (results_in_order r) as [t| | |]; cbn [bind]; reflexivity.
+  Qed.
+End OneLine.
